@@ -20,7 +20,7 @@ FAMILIES = {
     "subslot": dict(G=[3600, 3600, 1800, 900, 300], efforts=[7, 10, 20, 25, 45, 50, 90, 100, 135, 200, 61, 119],
                     effs=["1.0", "1.0", "0.5", "0.7", "1.5", "2.0", "0.9", "1.3"], team=0.25, alt=0.15, nres=(1, 2), ntasks=(2, 8),
                     gap=[0, 0, 0, 10, 30, 45, 90], dep=0.6, rleave=0.05, vac=0.05, gleave=0.15, prio=0.6, rdaily=0.1),
-    "hours": dict(rbook=0.3, hours=0.6, shift=0.3, tz=0.5, xmid=0.4, rleave=0.3, vac=0.45, gleave=0.3, efforts=[120, 480, 960, 1440],
+    "hours": dict(overlaplines=0.3, phours=0.35, rbook=0.3, hours=0.6, shift=0.3, tz=0.5, xmid=0.4, rleave=0.3, vac=0.45, gleave=0.3, efforts=[120, 480, 960, 1440],
                   starts=[MON, 1741305600, 1761523200, 1743292800 - 86400 * 6], G=[3600, 3600, 1800, 900], dur=[("w", 4)], ntasks=(1, 4)),
     "limits": dict(rdaily=0.6, rweekly=0.5, gdaily=0.4, tdaily=0.4, tweekly=0.3, tlimres=0.3, group=0.6, nest=0.5, team=0.2,
                    efforts=[240, 480, 960, 1920, 2400], dur=[("w", 1), ("d", 13), ("w", 3)], ntasks=(1, 5),
@@ -51,6 +51,10 @@ FAMILIES = {
     # blocking bookings in every duration unit, also months
     "bookings": dict(rbook=0.95, book_units=[(30.4167 * 1440, "1m"), (2 * 30.4167 * 1440, "2m"), (10080, "1w"), (1440, "1d"), (360, "6h")],
                      efforts=[480, 960, 1920, 2400, 3000], dur=[("w", 4), ("w", 8)], ntasks=(1, 4), nres=(1, 2), dep=0.4, vac=0.1),
+    # leaves, vacations and blocking bookings that end inside a slot, in the hours where the work is
+    "midslot": dict(midslot=0.8, rbook=0.5, book_units=[(90, "90min"), (30, "30min"), (150, "150min"), (45, "45min"), (210, "210min")],
+                    efforts=[60, 120, 180, 240, 480, 90], ntasks=(1, 3), nres=(1, 2), dep=0.3, prio=0.5, rleave=0.0, vac=0.0, gleave=0.0,
+                    G=[3600, 3600, 1800], dur=[("w", 2)], midvac=0.4),
     "deps": dict(dupid=0.4, nest=0.6, depth=3, dep=0.8, precedes=0.3, rel=0.5, contdep=0.5, contstart=0.3, onstart=0.25, pin=0.15,
                  gap=[0, 60, 120, 480, 1440, 90, 30, 2880, 10080], ntasks=(3, 9), hours=0.2),
     "coredeps": dict(dupid=0.3, nest=0.6, depth=3, dep=0.8, precedes=0.3, rel=0.5, contdep=0.5, contstart=0.3, onstart=0.25, pin=0.15,
@@ -61,12 +65,65 @@ FAMILIES = {
     "alapcore": dict(alap=1.0, dupid=0.3, nest=0.5, dep=0.7, gap=[0, 0, 60, 120, 480], onstart=0.0, precedes=0.1, pin=0.0,
                      milestone=0.1, efforts=[60, 120, 240, 480], contdep=0.2, ntasks=(2, 6), team=0.2,
                      rdaily=0.3, rweekly=0.15, gdaily=0.2, tdaily=0.15, group=0.4, hours=0.2, rleave=0.2, G=[3600, 3600, 1800]),
+    # backward projects that begin at a working instant and are short enough for the work to be pushed back to slot 0
+    "alapfull": dict(alap=1.0, midstart=0.8, dur=[("d", 1), ("d", 2), ("d", 3), ("d", 5)], nres=(1, 2), ntasks=(2, 5), efforts=[60, 120, 180, 240, 480, 90, 45],
+                     dep=0.3, gap=[0, 0, 60], onstart=0.0, precedes=0.1, pin=0.0, milestone=0.05, prio=0.7, rleave=0.0, vac=0.0, gleave=0.0),
+    # priorities declared on outer containers only and inherited through several levels, contention on few resources
+    "priotrees": dict(nest=0.9, depth=4, ntasks=(4, 9), nres=(1, 2), prio=0.0, contprio=0.8, dep=0.15, efforts=[60, 120, 240, 480], rleave=0.0, vac=0.0, gleave=0.0),
+    # several alternatives per allocation on resources of differing availability
+    "alts": dict(nres=(3, 4), alt=0.85, alt2=True, rleave=0.5, rbook=0.4, ntasks=(2, 6), prio=0.7, dep=0.2, efforts=[240, 480, 960, 120], vac=0.0, gleave=0.0),
+    # working hours declared on a resource group and inherited by its members (only for checks that compare spellings:
+    # projects.working() looks at the leaf resource's own calendar)
+    "grouphours": dict(group=1.0, ghours=1.0, nres=(2, 3), hours=0.25, shift=0.1, ntasks=(2, 5), efforts=[120, 480, 960], dep=0.3, xmid=0.2,
+                       rleave=0.1, vac=0.1, gleave=0.0),
+    # dated containers above leaves without dates of their own (scenario-specific starts on the leaves: C16)
+    "scentrees": dict(nest=0.9, depth=2, contstart=0.8, ntasks=(3, 7), pin=0.0, dep=0.2, nres=(1, 2), efforts=[60, 120, 240, 480], rleave=0.0, vac=0.0, gleave=0.0),
+    # backward scheduling (project- and task-level) of allocations with an alternative of similar speed
+    "alapalt": dict(alap=1.0, alt=0.7, nres=(2, 3), effs=["1.0", "1.0", "0.8", "0.9"], efforts=[120, 240, 330, 480, 90, 200], ntasks=(2, 5), dep=0.3,
+                    onstart=0.0, pin=0.0, prio=0.6, gap=[0, 0, 60], milestone=0.0),
+    "taskalapalt": dict(taskalap=0.7, alt=0.7, nres=(2, 3), effs=["1.0", "0.8", "0.9"], efforts=[120, 240, 330, 480, 90], ntasks=(2, 5), dep=0.2, onstart=0.0,
+                        pin=0.0, milestone=0.0),
+    # backward projects with dependencies ON containers that contain containers (the successor binds every leaf below)
+    "alapnest": dict(alap=1.0, nest=0.9, depth=3, contdep=0.9, dep=0.6, gap=[0, 0, 60, 480, 1440], onstart=0.0, precedes=0.2, pin=0.0, milestone=0.05,
+                     efforts=[60, 120, 240, 480], ntasks=(4, 9), nres=(1, 3), rleave=0.0, vac=0.0, gleave=0.0),
     "taskalap": dict(taskalap=0.5, dep=0.4, onstart=0.0, pin=0.0, efforts=[60, 120, 240, 90], ntasks=(1, 5), milestone=0.0),
     "trees": dict(group=0.5, galloc=0.2, dupid=0.3, contstart=0.3, nest=0.8, depth=4, ntasks=(3, 10), dep=0.3, milestone=0.15, pin=0.15, contdep=0.3, unsched=0.3),
+    # nested containers with windows of their own and leaves that cannot be scheduled
+    "wintrees": dict(contwindow=0.5, contstart=0.2, nest=0.85, depth=3, ntasks=(3, 8), dep=0.2, milestone=0.1, pin=0.1, unsched=0.8, nres=(1, 2)),
 }
 
 
+def alapslot0(ctx, n):
+    """backward projects that begin at a working instant and whose work fills the first day exactly: the task of
+    lowest priority - one slot or less of work - is pushed back into slot 0 of the project"""
+    rng = ctx.rng
+    out = []
+    for i in range(n):
+        G = rng.choice([3600, 3600, 1800])
+        slots = 8 * 3600 // G                                    # Monday 09:00-17:00
+        last = rng.choice([G // 60, G // 60, G // 120, (G // 60) * 3 // 4])
+        rest = slots - 1
+        parts = []
+        while rest > 0:
+            k = rng.randint(1, rest)
+            parts.append(k)
+            rest -= k
+        tasks = [{"id": f"t{j}", "effort": k * (G // 60), "alloc": ["r0"], "prio": 900 - 50 * j} for j, k in enumerate(parts[:6])]
+        tasks.append({"id": "low", "effort": last, "alloc": ["r0"], "prio": 50})
+        for t in tasks:                                          # one deadline for all: Monday 17:00
+            t["end"] = MON + 17 * 3600
+        rng.shuffle(tasks)
+        out.append({"start": MON + 9 * 3600, "dur": ("d", rng.choice([1, 1, 2])), "G": G, "tz": "Etc/UTC", "vac": [], "gleaves": [], "shifts": {},
+                    "alap": True, "resources": [{"id": "r0", "eff": "1.0", "leaves": []}], "tasks": tasks, "_family": "alapslot0", "_i": i})
+    return out
+
+
+SPECIAL = {"alapslot0": alapslot0}
+
+
 def family(ctx, name, n):
+    if name in SPECIAL:
+        return SPECIAL[name](ctx, n)
     cfg = dict(BASE)
     cfg.update(FAMILIES[name])
     out = []
@@ -81,6 +138,15 @@ def family(ctx, name, n):
 def hours_table(rng, cfg, G):
     gm = max(1, G // 60)
     tbl = []
+    if cfg.get("_overlap"):
+        # a morning block on every working day and an afternoon block on some of them only: written (render_hours,
+        # mode "overlap") as one line naming all the days and further lines naming single days again
+        days = sorted(rng.sample(range(7), rng.randint(3, 6)))
+        a = rng.choice([7, 8, 9])
+        A = ((a, 0), (a + rng.choice([3, 4]), 0))
+        B = ((13, 0), (rng.choice([15, 16, 17]), 0))
+        some = set(rng.sample(days, rng.randint(1, len(days) - 1)))
+        return [(d, [A] + ([B] if d in some else [])) for d in days]
     days = sorted(rng.sample(range(7), rng.randint(3, 7)))
     shared = {}                                   # several days often share one interval list (day ranges / lists)
     npat = rng.choice([1, 2, 2, 7])
@@ -114,6 +180,8 @@ def hours_table(rng, cfg, G):
 
 
 def gen(rng, cfg):
+    if cfg.get("overlaplines"):
+        cfg = dict(cfg, _overlap=rng.random() < cfg["overlaplines"])
     G = rng.choice(cfg["G"])
     start = rng.choice(cfg["starts"])
     if rng.random() < cfg["midstart"]:
@@ -124,7 +192,11 @@ def gen(rng, cfg):
         ap["alap"] = True
     if cfg["hours"] or cfg["shift"]:
         ap["dayranges"] = rng.random() < 0.5        # written as day ranges / lists instead of one directive per day
+        if cfg.get("_overlap"):
+            ap["dayranges"] = "overlap"             # shared intervals on one line, the rest per day: lines overlap in days
     day0 = start - start % 86400
+    if rng.random() < cfg.get("phours", 0.0):
+        ap["phours"] = hours_table(rng, cfg, G)      # working hours in the project header
     if rng.random() < cfg["vac"]:
         a = day0 + rng.randint(0, 9) * 86400
         ap["vac"].append((a, None if rng.random() < 0.5 else a + rng.randint(1, 3) * 86400))
@@ -133,6 +205,9 @@ def gen(rng, cfg):
         for _ in range(rng.randint(1, 2)):
             a = day0 + rng.randint(0, 12) * 86400
             ap["vac"].insert(rng.randrange(len(ap["vac"]) + 1), (a, None if rng.random() < 0.6 else a + rng.randint(1, 2) * 86400))
+    if rng.random() < cfg.get("midvac", 0.0):
+        a = day0 + rng.randint(0, 2) * 86400 + rng.choice([9, 10, 13]) * 3600
+        ap["vac"].append((a, a + rng.choice([1, 3, 5]) * 1800))
     if rng.random() < cfg.get("straddle", 0.0):
         # (year-end starts are Mondays nine days before 31 December) a vacation that begins in the old year
         # and ends in the new one
@@ -162,6 +237,10 @@ def gen(rng, cfg):
             a = day0 + rng.randint(0, 8) * 86400
             kind = rng.choice(["annual", "sick", "vacation", "special"])
             r["leaves"].append((a, None if rng.random() < 0.5 else a + rng.randint(1, 2) * 86400, kind))
+        if rng.random() < cfg.get("midslot", 0.0):
+            # a leave that ends (and may begin) inside a slot, early in the project where the work is
+            a = day0 + rng.randint(0, 2) * 86400 + rng.choice([9, 9, 10, 13]) * 3600 + rng.choice([0, 0, 900, 1800])
+            r["leaves"].append((a, a + rng.choice([1, 3, 5, 9]) * 1800 + rng.choice([0, 0, 900]), rng.choice(["annual", "sick", "special", "vacation"])))
         if rng.random() < cfg["rbook"]:
             # a blocking booking of the resource: calendar time from a date, in every unit the grammar knows
             a = day0 + rng.randint(0, 9) * 86400 + rng.choice([0, 9, 11, 13]) * 3600
@@ -174,6 +253,15 @@ def gen(rng, cfg):
         leaves_r.append(r)
     if nres >= 1 and rng.random() < cfg["group"]:
         g = {"id": "grp", "kids": leaves_r}
+        if rng.random() < cfg.get("ghours", 0.0):
+            # working hours written on the group (inline or as a shift) and inherited by the members without own hours
+            if rng.random() < 0.5:
+                g["hours"] = hours_table(rng, cfg, G)
+            else:
+                sid = f"s{nshift}"
+                nshift += 1
+                ap["shifts"][sid] = hours_table(rng, cfg, G)
+                g["shift"] = sid
         if rng.random() < cfg["gdaily"] / max(cfg["group"], 0.01):
             g["dailymax"] = rng.choice([120, 180, 360, 480])
         ap["resources"] = [g]
@@ -207,6 +295,8 @@ def gen(rng, cfg):
             rest = [x for x in rids if x not in n["alloc"]]
             if rest and k == 1 and rng.random() < cfg["alt"]:
                 n["alt"] = [rng.choice(rest)]
+                if len(rest) >= 2 and cfg.get("alt2"):
+                    n["alt"] = rng.sample(rest, rng.randint(2, min(3, len(rest))))     # several alternatives
             if grouped and rng.random() < cfg["galloc"]:
                 # a resource group named in an allocation (alone, before or after a worker)
                 n["alloc"] = rng.choice([["grp"], ["grp", rng.choice(rids)], [rng.choice(rids), "grp"]])
@@ -222,8 +312,8 @@ def gen(rng, cfg):
                 c = {"id": f"c{len(conts)}", "kids": []}
                 p = prefix + (c["id"],)
                 conts.append((p, c))
-                if rng.random() < 0.3:
-                    c["prio"] = rng.choice([200, 800])
+                if rng.random() < (cfg.get("contprio", 0.3) if depth == 0 or "contprio" not in cfg else 0.1):
+                    c["prio"] = rng.choice([200, 800]) if "contprio" not in cfg else rng.choice([200, 400, 600, 800, 900])
                 sub = [min(budget[0], rng.randint(1, 3))]
                 budget[0] -= sub[0]
                 c["kids"] = build(p, depth + 1, sub)
@@ -297,6 +387,11 @@ def gen(rng, cfg):
     for p, c in conts:
         if rng.random() < cfg["contstart"] and not ap.get("alap"):
             c["start"] = day0 + rng.randint(0, 5) * 86400
+    for p, c in conts:
+        # a container with a window of its own (start and end written on it)
+        if rng.random() < cfg.get("contwindow", 0.0) and not ap.get("alap"):
+            c["start"] = day0 + rng.randint(0, 4) * 86400
+            c["end"] = c["start"] + rng.randint(3, 10) * 86400
     # task / container limits
     for p, n in allnodes:
         if "milestone" in n:
